@@ -611,6 +611,15 @@ def run(repo, rep, tier):
                                     len(a.args) == 2 and \
                                     const_str(a.args[1]) is not None:
                                 continue
+                            if isinstance(a, ast.Call) and \
+                                    isinstance(a.func, ast.Attribute) and \
+                                    a.func.attr == 'get' and \
+                                    len(a.args) == 2 and \
+                                    isinstance(a.args[1], ast.Name):
+                                vals = _loop_constants(g, a.args[1].id)
+                                if vals and all(isinstance(v_, str)
+                                                for v_ in vals):
+                                    continue
                             if const_str(a) is not None:
                                 continue
                             if isinstance(a, ast.Name):
@@ -1558,3 +1567,46 @@ def unbounded_int_text_rule(repo, rep):
     if not n:
         raise AnalysisError('C02.R11: no int(text, 16) in the response '
                             'parser (anchor moved)')
+
+
+def _loop_constants(func, name):
+    """the constants a local takes when its only bindings are positions of
+    for-loop targets over literal tuples / lists of constants (of constant
+    tuples); None when it is bound in any other way"""
+    vals = []
+    bound_elsewhere = False
+    for n in ast.walk(func.node):
+        if isinstance(n, ast.For):
+            tg = n.target
+            elts = tg.elts if isinstance(tg, ast.Tuple) else [tg]
+            pos = [i for i, x in enumerate(elts)
+                   if isinstance(x, ast.Name) and x.id == name]
+            if not pos:
+                continue
+            it = n.iter
+            if not isinstance(it, (ast.Tuple, ast.List)):
+                return None
+            for item in it.elts:
+                if isinstance(tg, ast.Tuple):
+                    if not (isinstance(item, (ast.Tuple, ast.List)) and
+                            len(item.elts) == len(elts) and
+                            isinstance(item.elts[pos[0]], ast.Constant)):
+                        return None
+                    vals.append(item.elts[pos[0]].value)
+                else:
+                    if not isinstance(item, ast.Constant):
+                        return None
+                    vals.append(item.value)
+        elif isinstance(n, ast.Name) and n.id == name and \
+                isinstance(n.ctx, (ast.Store, ast.Del)):
+            bound_elsewhere = True
+    # the Store contexts of the for targets themselves are counted above
+    n_for = sum(1 for n in ast.walk(func.node) if isinstance(n, ast.For)
+                for x in ast.walk(n.target)
+                if isinstance(x, ast.Name) and x.id == name)
+    n_store = sum(1 for n in ast.walk(func.node)
+                  if isinstance(n, ast.Name) and n.id == name and
+                  isinstance(n.ctx, (ast.Store, ast.Del)))
+    if n_store != n_for or not vals:
+        return None
+    return vals
